@@ -178,6 +178,38 @@ def post_path_reversed(call):
     rel = 1e-6 if any(type(s).__name__ == 'Arc' for s in p) else 1e-9
     if not (abs(L0 - L1) <= rel * max(L0, L1) + 1e-300):
         ctx.violation('Path.reversed/length', 'reversed path has a different length', {'L': L0, 'Lrev': L1})
+        return True
+    # the same at the level of the path parameter: the middle of segment i of the reversed path, addressed by
+    # the global parameter T, is the middle of segment n-1-i of the original (addressed by 1-T)
+    if not (L1 > 0):
+        return True
+    try:
+        lens = [float(x.length()) for x in r]
+    except Exception:
+        return True
+    cum = [0.0]
+    for x in lens:
+        cum.append(cum[-1] + x / L1)
+    for i in range(n):
+        share = cum[i + 1] - cum[i]
+        if share < 1e-3:
+            continue
+        T = cum[i] + 0.5 * share
+        try:
+            zr, zo = r.point(T), p.point(1 - T)
+        except Exception as e:
+            ctx.violation('Path.reversed/point-raises', 'point(T) on the reversed path (or point(1-T) on the original) raised %s'
+                          % type(e).__name__, {'T': T})
+            return True
+        want = r[i].point(0.5)
+        speed = max(abs(b - a) for a, b in zip(r[i].bpoints(), r[i].bpoints()[1:])) * 3 / max(lens[i], 1e-300) \
+            if type(r[i]).__name__ != 'Arc' else 4.0
+        tol = 1e-5 * L1 * max(1.0, speed) + base_tol(r[i])
+        if not (abs(zr - want) <= tol) or not (abs(zo - want) <= 2 * tol):
+            ctx.violation('Path.reversed/parameter', 'reversed().point(T) and point(1-T) are not the same point of the curve',
+                          {'T': T, 'index': i, 'reversed.point(T)': repr(zr), 'point(1-T)': repr(zo),
+                           'expected': repr(want), 'tol': tol})
+            return True
     return True
 
 
@@ -398,6 +430,8 @@ def run_case(ctx, case):
     for s in p:
         cum.append(cum[-1] + s.length() / L)
     closed = p.iscontinuous() and p.isclosed()
+    p.point(rng.random())
+    p.reversed()                    # once more, now that the path has answered length and point queries
     pairs = []
     for _ in range(4):
         k = rng.random()
